@@ -90,7 +90,7 @@ def write_evidence(prop, tier, seed, level, total, wall, extra, violations):
 
 
 def cmd_check(prop, tier, seed, args):
-    t0 = time.time()
+    t0 = time.monotonic()
     from simfw import simfs
     simfs.sweep_stale()
     pm = core._prop_module(prop)
@@ -128,7 +128,7 @@ def cmd_check(prop, tier, seed, args):
             ok, out = core.verify_replay_fresh(prop, path)
             if not ok:
                 print("HARNESS-ERROR: a worker process died (exit %s) and the chunk does not reproduce it:\n%s" % (vrec["detail"].get("exitcode"), out))
-                write_evidence(prop, tier, seed, pm.LEVEL, total, time.time() - t0, extra, nviol)
+                write_evidence(prop, tier, seed, pm.LEVEL, total, time.monotonic() - t0, extra, nviol)
                 return 2
             print("violation: %s" % json.dumps(vrec, sort_keys=True))
             print("VIOLATION property=%s replay=%s" % (prop, path))
@@ -155,7 +155,7 @@ def cmd_check(prop, tier, seed, args):
             shrunk = case
         if not ok:
             print("HARNESS-ERROR: replay %s does not reproduce in a fresh interpreter:\n%s" % (path, out))
-            write_evidence(prop, tier, seed, pm.LEVEL, total, time.time() - t0, extra, nviol)
+            write_evidence(prop, tier, seed, pm.LEVEL, total, time.monotonic() - t0, extra, nviol)
             return 2
         print("violation: %s" % json.dumps(r["violation"], sort_keys=True))
         print("minimised %d -> %d ops in %d executions; %d violating runs in this batch" %
@@ -167,7 +167,7 @@ def cmd_check(prop, tier, seed, args):
         print("VIOLATION property=%s replay=%s" % (prop, pv["replay"]))
         nviol += 1
         rc = 1
-    ev = write_evidence(prop, tier, seed, pm.LEVEL, total, time.time() - t0, extra, nviol)
+    ev = write_evidence(prop, tier, seed, pm.LEVEL, total, time.monotonic() - t0, extra, nviol)
     unreached = ev["coverage"]["unreached_required_faults"]
     required = getattr(pm, "REQUIRED_FAULTS", [])
     if rc == 0 and unreached and not total["skipped"]:
@@ -183,7 +183,7 @@ def cmd_check(prop, tier, seed, args):
         return 2
     print("%s: runs=%d ops=%d evals=%d distinct=%d faults=%s foreign=%s known=%s wall=%.1fs -> %s" % (
         prop, total["runs"], total["ops"], total["evals"], len(total["distinct"]), json.dumps(total["faults"], sort_keys=True),
-        json.dumps(total["foreign"], sort_keys=True), json.dumps(total["known"], sort_keys=True), time.time() - t0,
+        json.dumps(total["foreign"], sort_keys=True), json.dumps(total["known"], sort_keys=True), time.monotonic() - t0,
         "PASS" if rc == 0 else "VIOLATION"))
     return rc
 
